@@ -91,9 +91,10 @@ def model_step(m, op):
 
 
 class C13System:
-    def __init__(self, transform_ops, nest=2):
+    def __init__(self, transform_ops, nest=2, errors=True):
         self.transform_ops = transform_ops
         self.nest = nest
+        self.errors = errors
 
     def fresh(self):
         st = Sut({}, GCodeCore)
@@ -109,8 +110,12 @@ class C13System:
             ["transform.save_state"], ["transform.save_state", ["a"]], ["transform.save_state", ["b"]],
             ["transform.restore_state"], ["transform.restore_state", ["a"]], ["transform.restore_state", ["b"]],
             ["transform.delete_state", ["a"]],
-            ["transform.scale", [0.0]], ["transform.reflect", [[0.0, 0.0, 0.0]]],
         ]
+        if self.errors:
+            ops += [["transform.scale", [0.0]], ["transform.reflect", [[0.0, 0.0, 0.0]]]]
+        else:
+            ops = [o for o in ops if o != ["transform.save_state", ["b"]] and o != ["transform.restore_state", ["b"]]
+                   and o != ["transform.delete_state", ["a"]]]
         if len(st.ctx) < self.nest:
             ops.append(["enter", ["current_transform"]])
             ops.append(["enter", ["named_transform", "a"]])
@@ -221,10 +226,16 @@ RULE = ("BFS over histories of translate/rotate/scale/reflect/mirror/set_pivot/s
 ASSUMPTIONS = ["relative tolerance 1e-8 on probe-point images", "pivots are 3-tuples", "matrices reachable with the listed parameters only"]
 
 
+TINY = [["transform.translate", [1.0, -2.0, 0.5]], ["transform.scale", [2.0, 0.5]]]
+
+
 def systems(tier):
+    # "ctx" = tiny transform alphabet so that save / enter / restore / transform / exit / observe chains (depth 5-6) are reached
     if tier == "quick":
-        return [("full-d3", C13System(FULL), 3, None), ("small-d4", C13System(SMALL), 4, None)]
-    return [("full-d4", C13System(FULL), 4, None), ("small-d6", C13System(SMALL), 6, None)]
+        return [("full-d3", C13System(FULL), 3, None), ("small-d4", C13System(SMALL), 4, None),
+                ("ctx-d6", C13System(TINY, errors=False), 6, None)]
+    return [("full-d4", C13System(FULL), 4, None), ("small-d6", C13System(SMALL), 6, None),
+            ("ctx-d7", C13System(TINY, errors=False), 7, None)]
 
 
 def run(tier, seed):
